@@ -74,7 +74,9 @@ def make_tpp(ctx, path, notified, with_timer=True, to_delete=1):
     H[('f', o, 'stderr')] = NONE
     H[('f', o, 'kill_on_stderr')] = VBool(True)
     H[('f', o, 'config')] = NONE
-    H[('f', o, 'tor_protocol')] = NONE
+    # the control connection may or may not exist yet
+    has_proto = z3.Bool('control_connection_exists')
+    H[('f', o, 'tor_protocol')] = VUnion([(has_proto, VOpaque('proto', 7902)), (z3.Not(has_proto), NONE)])
     H[('f', o, 'attempted_connect')] = VBool(z3.Bool('attempted0'))
     H[('f', o, 'connection_creator')] = VOpaque('connection_creator', 7100)
     H[('f', o, '_on_exit')] = ex.new_list(path, [])
